@@ -97,8 +97,14 @@ pub fn hex_u64(v: &Value) -> Option<u64> {
 pub fn block_hash_for(tag: u32) -> String {
     hex0x(&sha(&format!("verif-block-{tag}")))
 }
+/// the Bitcoin transaction id the indexer reports for scenario transaction `id`; boundary values (all zero,
+/// all ones) for one id in eight each
 pub fn txid_for(id: u32) -> String {
-    hex0x(&sha(&format!("verif-txid-{id}")))
+    match id % 8 {
+        3 => ZERO_HASH.to_string(),
+        6 => format!("0x{}", "ff".repeat(32)),
+        _ => hex0x(&sha(&format!("verif-txid-{id}"))),
+    }
 }
 pub fn insc_for(id: u32) -> String {
     format!("{}i0", hex::encode(sha(&format!("verif-insc-{id}"))))
